@@ -363,7 +363,7 @@ pub fn catalogue(level: u8) -> Vec<Arc<Shape>> {
         }
     }
     // --- auxiliary segment -----------------------------------------------------------------------------------
-    for (aw, ar, w) in [(1usize, 1usize, 2usize), (1, 2, 2), (2, 1, 2), (2, 2, 3), (2, 2, 1)] {
+    for (aw, ar, w) in [(1usize, 1usize, 2usize), (1, 2, 2), (2, 1, 2), (2, 2, 3), (2, 2, 1), (3, 1, 2), (3, 2, 1)] {
         if level == 0 && (aw, ar, w) != (2, 2, 3) {
             continue;
         }
